@@ -24,7 +24,7 @@ Witnesses of its negation (each replayed on the implementation and recorded as a
   `partial_bundle_group_answered_in_full`  — BUNDLE clause: a section outside the offered group is bundled
   (`offered_payload_type_rebound` — not a clause of the property text: an offered NUMBER bound to another codec)
 What is proved of `answer` is stated clause by clause: for ALL inputs `answer_count`, `answer_kinds_ok`
-(under `KindSynced`, mid-less offers included), `answer_setup_ok(_desc)`, `answer_setup_complements` (about
+(full: every offer, every state — `kind_synced`), `answer_setup_ok(_desc)`, `answer_setup_complements` (about
 `RtcModel.Jsep.roleOfSetup`, the role derivation the C09 driver compares with the code),
 `answer_direction_ok`, `answer_mux_ok(_desc)`, `answer_bundle_ok`, `answer_extmap_ok`,
 `answer_extmap_ids_offered`, `answer_rtx_ok`, `answer_extmap_nodup`; RELATIVE TO THE ANSWERED SECTION for
@@ -502,6 +502,14 @@ def DirSynced (ts : List TrxView) (offer : Desc) : Prop :=
 def KindSynced (ts : List TrxView) (offer : Desc) : Prop :=
   ∀ t ∈ ts, ∀ o ∈ offer.media, Matches o t → t.kind = o.kind
 
+/-- since the round-2 `fix:` ("create_answer matches a transceiver by MID only if it is of the section's
+kind") the matching itself guarantees the kind — `KindSynced` is no longer a hypothesis of any theorem.
+Before it, a transceiver carrying a locally assigned mid equal to an offered mid was matched whatever its
+kind: `legacy_mid_match_ignores_kind`. -/
+theorem kind_synced (ts : List TrxView) (offer : Desc) : KindSynced ts offer := by
+  intro t _ o _ hm
+  rcases hm with ⟨_, _, hk⟩ | ⟨_, hk⟩ <;> exact hk
+
 /-- **answer_direction_ok_desc** — along the whole answer: every answered direction is compatible with
 the offered one, when the matched transceivers carry the offered directions (`DirSynced`). -/
 theorem answer_direction_ok_desc (c : Cfg) (ts : List TrxView) (nextMid : Nat) (hasLocal : Bool) (role : Option Bool)
@@ -528,13 +536,13 @@ theorem answer_direction_ok_desc (c : Cfg) (ts : List TrxView) (nextMid : Nat) (
   · rw [he, zipAll_map_right secDirOk (fun s => { s with mid := [] }) (fun o s => rfl)]; exact hbl
 
 /-- **answer_aligned_partial** — kinds and mids of the answer are the offer's, section by section, when
-every offered section carries a mid, matched transceivers are of the offered kind (`KindSynced`) and
+every offered section carries a mid and
 the mids are not cleared (Standard mode and: BUNDLE offered or a single section). The two excluded
 situations are exactly the witnesses `answer_clears_mids_without_bundle` /
 `legacy_sip_answer_drops_offered_mids`. -/
 theorem answer_aligned_partial (c : Cfg) (ts : List TrxView) (nextMid : Nat) (hasLocal : Bool) (role : Option Bool)
     (offer : Desc) (a : Answer) (h : answer c ts nextMid hasLocal role (some offer) = .ok a)
-    (hmids : ∀ o ∈ offer.media, o.mid ≠ []) (hk : KindSynced ts offer)
+    (hmids : ∀ o ∈ offer.media, o.mid ≠ [])
     (hnc : c.legacySip = false ∧ (offeredBundle offer.session.attrs = true ∨ offer.media.length ≤ 1)) :
     zipAll secAligned offer.media a.sections = true := by
   obtain ⟨order, ho, _, hkeep⟩ := answer_sections c ts nextMid hasLocal role offer a h
@@ -547,10 +555,10 @@ theorem answer_aligned_partial (c : Cfg) (ts : List TrxView) (nextMid : Nat) (ha
   refine hal.imp ?_
   intro o p ho' _ ⟨_, t', hget', hm⟩ t mid hget hmid
   rw [hget'] at hget; injection hget with e; subst e
-  have hkind := hk t' (mem_of_getElem_some hget') o ho' hm
+  have hkind := kind_synced ts offer t' (mem_of_getElem_some hget') o ho' hm
   have hmid' : mid = o.mid := by
     rcases hm with ⟨_, htm⟩ | ⟨hem, _⟩
-    · exact hmid _ htm
+    · exact hmid _ htm.1
     · exact absurd hem (hmids o ho')
   unfold secAligned
   simp [answerSection, hkind, hmid']
@@ -559,12 +567,12 @@ theorem answer_aligned_partial (c : Cfg) (ts : List TrxView) (nextMid : Nat) (ha
 extension ids, together, under the named hypotheses: count, kinds, mids, rtcp-mux, direction. -/
 theorem answer_valid_core_partial (c : Cfg) (ts : List TrxView) (nextMid : Nat) (hasLocal : Bool) (role : Option Bool)
     (offer : Desc) (a : Answer) (h : answer c ts nextMid hasLocal role (some offer) = .ok a)
-    (hmids : ∀ o ∈ offer.media, o.mid ≠ []) (hk : KindSynced ts offer) (hd : DirSynced ts offer)
+    (hmids : ∀ o ∈ offer.media, o.mid ≠ []) (hd : DirSynced ts offer)
     (hnc : c.legacySip = false ∧ (offeredBundle offer.session.attrs = true ∨ offer.media.length ≤ 1)) :
     a.sections.length = offer.media.length ∧ zipAll secAligned offer.media a.sections = true ∧
     zipAll secMuxOk offer.media a.sections = true ∧ zipAll secDirOk offer.media a.sections = true :=
   ⟨answer_count c ts nextMid hasLocal role offer a h,
-   answer_aligned_partial c ts nextMid hasLocal role offer a h hmids hk hnc,
+   answer_aligned_partial c ts nextMid hasLocal role offer a h hmids hnc,
    answer_mux_ok_desc c ts nextMid hasLocal role offer a h,
    answer_direction_ok_desc c ts nextMid hasLocal role offer a h hd⟩
 
@@ -744,8 +752,8 @@ theorem setupValue_side (role : Option Bool) :
 /-- **answer_valid_partial** — `validAnswer offer a` for every answer the model produces, under named
 hypotheses none of which (except `PtsWithinOffer`) restates a clause of the conclusion:
 every offered section carries a white-space free, non-empty mid and the mids are pairwise different;
-the offered extension lines are well formed (`ExtWF`); the matched transceivers have the offered kinds
-and directions (`KindSynced`, `DirSynced` — what a first `set_remote_description` establishes, C09
+the offered extension lines are well formed (`ExtWF`); the matched transceivers have the offered
+directions (`DirSynced` — what a first `set_remote_description` establishes, C09
 `first_offer_syncs_transceivers`); Standard mode with BUNDLE offered or a single section (mids not
 cleared); the role was derived from this offer's uniform `a=setup` (`RoleDerived`); the offer's group
 lists its mids; non-video codec parts carry no `apt=`; and `PtsWithinOffer` — the part the code does NOT
@@ -754,7 +762,7 @@ ensure. The RTX, extension-id (incl. no duplicates) and setup clauses are DERIVE
 theorem answer_valid_partial (c : Cfg) (ts : List TrxView) (nextMid : Nat) (hasLocal : Bool) (role : Option Bool)
     (offer : Desc) (a : Answer) (h : answer c ts nextMid hasLocal role (some offer) = .ok a)
     (hmids : ∀ o ∈ offer.media, IsTok o.mid) (hdist : DistinctMids offer) (hext : ∀ o ∈ offer.media, ExtWF o)
-    (hk : KindSynced ts offer) (hd : DirSynced ts offer)
+    (hd : DirSynced ts offer)
     (hnc : c.legacySip = false ∧ (offeredBundle offer.session.attrs = true ∨ offer.media.length ≤ 1))
     (hrole : RoleDerived c role offer) (hgrp : GroupListsMids offer) (hapt : NonVideoNoApt c offer hasLocal)
     (hsel : PtsWithinOffer c offer hasLocal) :
@@ -798,11 +806,11 @@ theorem answer_valid_partial (c : Cfg) (ts : List TrxView) (nextMid : Nat) (hasL
     refine hal.imp ?_
     intro o p ho' _ ⟨hflag, t', hget', hm⟩ t mid hget hmid
     rw [hget'] at hget; injection hget with e; subst e
-    have hkind := hk t' (mem_of_getElem_some hget') o ho' hm
+    have hkind := kind_synced ts offer t' (mem_of_getElem_some hget') o ho' hm
     have hdir := hd t' (mem_of_getElem_some hget') o ho' hm
     have hmid' : mid = o.mid := by
       rcases hm with ⟨_, htm⟩ | ⟨hem, _⟩
-      · exact hmid _ htm
+      · exact hmid _ htm.1
       · exact absurd hem (hne o ho')
     subst hmid'
     have e1 : secAligned o (answerSection c t' offer.media hasLocal role o.mid p.2) = true := by
@@ -856,7 +864,7 @@ theorem answer_valid_partial (c : Cfg) (ts : List TrxView) (nextMid : Nat) (hasL
       dsimp only
       -- the group value lists the answer's mids = the offer's mids
       have halign : zipAll secAligned offer.media a.sections = true :=
-        answer_aligned_partial c ts nextMid hasLocal role offer a h hne hk hnc
+        answer_aligned_partial c ts nextMid hasLocal role offer a h hne hnc
       have hmidsEq := zipAll_aligned_mids _ _ halign
       have hgv : g = "BUNDLE ".toList ++ join sp (a.sections.map (·.mid)) ∧ a.sections ≠ [] := by
         unfold answer at h
@@ -965,12 +973,19 @@ theorem offered_payload_type_rebound :
       zipAll secPtsOk [o] a.sections = true ∧ zipAll secBindOk [o] a.sections = false := by
   refine ⟨_, rfl, by decide, by decide⟩
 
+/-- **Witness about superseded code** (before the round-2 `fix:` "create_answer matches a transceiver by MID
+only if it is of the section's kind"): a data-channel transceiver that carries the locally assigned mid `0`
+was chosen for the offered VIDEO section with mid `0`; the current matching picks the video transceiver. -/
+theorem legacy_mid_match_ignores_kind :
+    Legacy.answerOrder [trx .application "0", trx .video "0"] [vp8Sec "0" []] [] [] = some [(0, true)] ∧
+    answerOrder [trx .application "0", trx .video "0"] [vp8Sec "0" []] [] [] = some [(1, true)] := by decide
+
 /-- **answer_kinds_ok** — the kinds of the answer are the offer's, section by section, for EVERY offer
-(with or without mids, any compatibility mode) when transceivers matched by mid are of the offered kind
-(`KindSynced`; for mid-less sections the matching itself is by kind). -/
+(with or without mids, any compatibility mode, any connection state) — FULL since the round-2 fix: the
+matching is by kind in both of its stages (`kind_synced`). -/
 theorem answer_kinds_ok (c : Cfg) (ts : List TrxView) (nextMid : Nat) (hasLocal : Bool) (role : Option Bool)
     (offer : Desc) (a : Answer) (h : answer c ts nextMid hasLocal role (some offer) = .ok a)
-    (hk : KindSynced ts offer) :
+    :
     zipAll (fun o s => o.kind = s.kind) offer.media a.sections = true := by
   obtain ⟨order, ho, hsec, _⟩ := answer_sections c ts nextMid hasLocal role offer a h
   obtain ⟨tail, ht, hal⟩ := answerOrder_matches ts offer.media [] [] order ho
@@ -982,7 +997,7 @@ theorem answer_kinds_ok (c : Cfg) (ts : List TrxView) (nextMid : Nat) (hasLocal 
     refine hal.imp ?_
     intro o p ho' _ ⟨_, t', hget', hm⟩ t mid hget _
     rw [hget'] at hget; injection hget with e; subst e
-    have hkind := hk t' (mem_of_getElem_some hget') o ho' hm
+    have hkind := kind_synced ts offer t' (mem_of_getElem_some hget') o ho' hm
     simp [answerSection, hkind]
   rcases hsec with he | he
   · rw [he]; exact hbl
